@@ -65,3 +65,26 @@ func init() {
 		}
 	})
 }
+
+func init() {
+	extraSpecs = append(extraSpecs, func(m map[string]*Spec) {
+		m["C08"] = &Spec{
+			ID: "C08", Level: "exploration", Main: "plain", Also: []string{"inst"}, Variants: []string{"plain", "inst"}, Block: 2,
+			QuickWall: 3 * time.Minute, ThoroughWall: 20 * time.Minute, BlockWall: 15 * time.Minute,
+			Nontrivial: "history",
+			Rule: "seeded histories of 2..8 (quick) / 2..40 (thorough) operations over ONE compiled generated bundle, one set of data maps, $ij maps and message catalogues, all reused for the whole history. Operations: render; render through a reused Renderer value; " +
+				"render into a writer failing at write k; render in which the vfail function/directive panics at its n-th invocation (error, string, runtime.Error or struct value); render with ill-typed data; soyjs.Write (ES5/ES6, with/without catalogue); Generator.WriteFile; " +
+				"parse.Expr+EvalExpr; re-compiling the same soy.Bundle. Swarm configuration per history: 0, 1 or 2 obligatory print directives, catalogue kind. Reference model: the same render as the first operation on a freshly compiled bundle with pristine data (memoised). " +
+				"Invariants after every operation: un-faulted renders are byte-identical to the model and agree on error presence; faulted renders wrote a prefix of the model output; the structural digest (reflection over exported and unexported fields, pointer-identity aware) of data maps, $ij, catalogues, " +
+				"the whole template.Registry with every AST node, the soy.Bundle and the process-wide registries is unchanged. The same histories run on the plain build and on the instrumented build (under the step clock). A history is distinct by the hash of (bundle skeleton, operation list).",
+			Assumptions: []string{
+				"error text is not compared (it embeds stack traces); only presence",
+				"JS generation is an operation in the history, its own bytes are C13's subject",
+				"randomInt and keys() are excluded from generated bundles",
+			},
+			Components: map[string][]string{"real": {"all of robfig/soy: unmodified build and instrumented build of the current working tree"}, "stub": {"io.Writer (fault-injecting)", "soymsg.Bundle (built from the compiled messages)", "vfail function / directive (panics on schedule)"}, "replaced": {}},
+			RequireProbes: []string{"op_render", "op_render-reused", "op_render-writerfault", "op_render-panic", "op_render-illtyped", "op_js", "op_genfile", "op_recompile", "fault_fired_writer", "fault_fired_panic_error", "fault_fired_panic_runtime-error",
+				"histories_with_obligatory_directives", "failed_renders"},
+		}
+	})
+}
